@@ -73,11 +73,20 @@ def requirements(cfg):
         for x in units[b]:
             for y in units[a]:
                 req.add((x, y))
-    for a, (b, i) in cfg['eafter']:
-        if i > applied[b]:
-            for x in units[a]:
-                if x[0] == 'evo':
-                    req.add((x, ('evo', b, i)))
+    for ent in cfg['eafter']:
+        a, (b, i) = ent[0], ent[1]
+        k = ent[2] if len(ent) > 2 else 1
+        # the declaring evolution (the k-th pending one) and every later one of its app
+        sources = [x for x in units[a] if x[0] == 'evo' and x[2] >= applied[a] + k]
+        if i == 0:
+            targets = list(units[b])            # a bare app label: everything of that app
+        elif i > applied[b]:
+            targets = [('evo', b, i)]
+        else:
+            targets = []
+        for x in sources:
+            for y in targets:
+                req.add((x, y))
     allunits = [u for us in units.values() for u in us]
     return allunits, req
 
@@ -128,9 +137,12 @@ def run_config(cfg):
             if bef:
                 app_deps['BEFORE_EVOLUTIONS'] = bef
             evo_deps = {}
-            for (x, (b, i)) in cfg['eafter']:
+            for ent in cfg['eafter']:
+                x, (b, i) = ent[0], ent[1]
+                k = ent[2] if len(ent) > 2 else 1
                 if x == a:
-                    evo_deps[applied[a] + 1] = {'AFTER_EVOLUTIONS': [(app_name(b), 'e%d' % i)]}
+                    dep = app_name(b) if i == 0 else (app_name(b), 'e%d' % i)
+                    evo_deps.setdefault(applied[a] + k, {'AFTER_EVOLUTIONS': []})['AFTER_EVOLUTIONS'].append(dep)
             deploy(project, a, applied[a] + pending[a], with_tag=newm[a],
                    app_deps=app_deps or None, evo_deps=evo_deps)
         project.set_installed([app_name(a) for a in range(1, n + 1)])
@@ -180,7 +192,33 @@ def judge(cfg, obs):
     return out, unsat
 
 
-def sample_configs(rng, napps, count, maxpending=2):
+def interleave_configs():
+    """Hand-shaped projects (evaluated by TLC like the sampled ones): an interleaved order that is
+    split into several batches, followed by a model creation and further evolutions of the apps the
+    split concerns."""
+    out = []
+    # app1: e1, e2 (after app2.e1), e3 (after the brand-new app3); app2: e1
+    out.append({'napps': 3, 'applied': [0, 0, 0], 'pending': [3, 1, 0], 'newm': [False, False, True],
+                'after': [], 'before': [], 'eafter': [[1, [2, 1], 2], [1, [3, 0], 3]]})
+    # the same with evolutions already applied
+    out.append({'napps': 3, 'applied': [1, 1, 0], 'pending': [3, 1, 0], 'newm': [False, False, True],
+                'after': [], 'before': [], 'eafter': [[1, [2, 2], 2], [1, [3, 0], 3]]})
+    # two interleaves in a row, then a new model of app2 itself
+    out.append({'napps': 3, 'applied': [1, 1, 1], 'pending': [3, 2, 1], 'newm': [False, True, False],
+                'after': [], 'before': [], 'eafter': [[1, [2, 2], 2], [2, [3, 2], 2]]})
+    # interleave, then an app-level dependency brings a new app's models before the last evolution
+    out.append({'napps': 3, 'applied': [0, 1, 0], 'pending': [2, 2, 0], 'newm': [True, False, True],
+                'after': [], 'before': [], 'eafter': [[2, [1, 1], 2], [1, [3, 0], 2]]})
+    # a split, then a model creation, then an evolution of a THIRD app that has to wait for the
+    # evolution the split moved into the later batch
+    out.append({'napps': 3, 'applied': [0, 0, 1], 'pending': [2, 1, 1], 'newm': [False, False, True],
+                'after': [], 'before': [], 'eafter': [[1, [2, 1], 2], [3, [1, 2], 1]]})
+    out.append({'napps': 3, 'applied': [1, 1, 1], 'pending': [2, 1, 1], 'newm': [False, False, True],
+                'after': [], 'before': [], 'eafter': [[1, [2, 2], 2], [3, [1, 3], 1]]})
+    return out
+
+
+def sample_configs(rng, napps, count, maxpending=3):
     """Seeded random configurations for NApps beyond the exhaustive bound (TLC
     evaluates the transcription on exactly these)."""
     out = []
@@ -199,14 +237,23 @@ def sample_configs(rng, napps, count, maxpending=2):
         for d in deps:
             (after if rng.random() < 0.6 else before).append(list(d))
         eafter = []
-        if rng.random() < 0.4:
+        # per-evolution declarations: up to two, on ANY pending evolution, naming an evolution of
+        # another app or the app as a whole
+        for _n in range(rng.choice([0, 0, 1, 1, 2])):
             cands = [a for a in apps if pending[a - 1] > 0]
             if cands:
                 a = rng.choice(cands)
                 b = rng.choice([x for x in apps if x != a])
                 tot = applied[b - 1] + pending[b - 1]
-                if tot > 0:
-                    eafter.append([a, [b, rng.randint(1, tot)]])
+                kk = rng.randint(1, pending[a - 1])
+                if rng.random() < 0.3:
+                    ent = [a, [b, 0], kk]
+                elif tot > 0:
+                    ent = [a, [b, rng.randint(1, tot)], kk]
+                else:
+                    continue
+                if ent not in eafter:
+                    eafter.append(ent)
         out.append({'napps': napps, 'applied': applied, 'pending': pending, 'newm': newm,
                     'after': after, 'before': before, 'eafter': eafter})
     return out
